@@ -3,6 +3,7 @@ import VaxisModel.Lemmas.InputLoop
 import VaxisModel.Lemmas.InputEvents
 import VaxisModel.Lemmas.InputFlow
 import VaxisModel.Lemmas.InputFlowAny
+import VaxisModel.Lemmas.InputFlowCpr
 
 /-!
 # C03 — every terminal report becomes the right event; the input loop survives any input
@@ -15,6 +16,7 @@ namespace VaxisModel.Props.C03
 open VaxisModel.Model.Input VaxisModel.Model.InputLoop
 open VaxisModel.Lemmas.Input VaxisModel.Lemmas.InputLoop VaxisModel.Lemmas.InputEvents VaxisModel.Lemmas.InputFlow
 open VaxisModel.Lemmas.InputFlowAny (NotCprKey emitted_spec_any)
+open VaxisModel.Lemmas.InputFlowCpr (unambiguous emitted_spec_cpr)
 open VaxisModel.Spec.InputEvents (mouseEvent UEvent)
 
 /-! ## Tie to the source: the constants and guards the theorems rely on -/
@@ -274,6 +276,40 @@ theorem input_never_lost_any_requester (p : Params) (rs : List SReport) (ls : Li
   have := emitted_spec_any p ls rs s s' hin hw hk hr
   rw [← this, ← visible_ui]
   simp [visible, List.filterMap_append]
+
+/-- **input_never_lost, cursor-position reports included.**  For *every* stream of well-formed,
+parser-deliverable reports — now also `CSI … R` sequences: answers to cursor-position queries, late
+answers, and the keys that share this encoding — under *every* schedule (queries made, answered,
+timed out and repeated at any moment, any queue capacity): every user-input event other than a key
+encoded `CSI … R` appears exactly once, in stream order, correctly decoded and paste-marked.  (A
+`CSI … R` sequence itself is, by design of DSR 6, the answer while a request stands and a key
+otherwise; whichever it is, it neither removes, duplicates nor reorders anything else.) -/
+theorem input_never_lost_with_cpr (p : Params) (rs : List SReport) (ls : List Label) (s s' : Sys)
+    (hin : inputSeqs ls = rs.map SReport.seq) (hw : ∀ r ∈ rs, r.Wf) (hs : ∀ r ∈ rs, WfSeq r.seq)
+    (hnb : nbOK s.pend) (hr : run p s ls = some s') :
+    ((visible (flow s')).filter uiU).filter unambiguous =
+      ((visible (flow s)).filter uiU).filter unambiguous ++
+        (VaxisModel.Spec.InputEvents.specEvents s.vs.pastePending (rs.map SReport.spec)).filter unambiguous := by
+  rw [← visible_ui, ← visible_ui, flow_preserved p ls s s' hr hnb]
+  have := emitted_spec_cpr p ls rs s s' hin hw hs hr
+  rw [← this]
+  have hu : ∀ l : List Event, (visible l).filter unambiguous = (visible (ui l)).filter unambiguous := by
+    intro l
+    rw [visible_ui, List.filter_filter]
+    congr 1; funext u
+    cases u <;> simp [unambiguous, uiU]
+  rw [hu (emitted p s ls)]
+  simp [visible, List.filterMap_append]
+
+/-- Non-vacuity: a query, a key, the answer `CSI 3;7 R`, a mouse report, a second `CSI 4;9 R` with no
+query outstanding (it comes out as a key) — the run exists. -/
+example :
+    (match run { qcap := 4, kinds := Kinds.ofGen, b64 := fun _ => none } {}
+        [.cursorDrain, .cursorCall, .input (SReport.seq (.key (.print [97] 1))), .step,
+         .input (SReport.seq (.key (.csi [] [[3], [7]] (ch 'R')))), .step, .cursorRecv,
+         .input (SReport.seq (.mouse 0 3 4 false)), .step, .input (SReport.seq (.key (.csi [] [[4], [9]] (ch 'R')))), .step] with
+     | some s => s.queue.length == 3 && s.cursorGot == [(3, 7)]
+     | none => false) = true := by decide
 
 /-- Non-vacuity: a key and a mouse report arrive while a cursor-position query is outstanding and
 an earlier answer is still being handed over; the query times out, a second one is made; the run
